@@ -148,6 +148,37 @@ func muskOracle(tail int) func(c *gridx.Case, r *vf.Rec) {
 				return
 			}
 		}
+		// the same event run as consecutive calls that carry the returned states forward: every way to cut the event
+		// part, the zero tail as the last call; the volume must be conserved in exactly the same way
+		for mask := 1; mask < 1<<c.T; mask++ {
+			var states []float64
+			from, wout := 0, 0.0
+			for t := 0; t < c.T; t++ {
+				if mask&(1<<t) != 0 {
+					seg := cc.RunSeg(from, t+1, states)
+					for _, v := range seg.Out[0] {
+						wout += v
+					}
+					states, from = seg.States, t+1
+				}
+			}
+			seg := cc.RunSeg(from, cc.T, states)
+			for _, v := range seg.Out[0] {
+				wout += v
+			}
+			r.Count("muskingum_windowed_events", 1)
+			if math.Abs(vin-wout) > 1e-9*vin+1e-12 {
+				cuts := []int{}
+				for t := 0; t < c.T; t++ {
+					if mask&(1<<t) != 0 {
+						cuts = append(cuts, t+1)
+					}
+				}
+				d["cuts_after_steps"], d["volume_out_windowed"] = cuts, wout
+				r.Failf("C11/Muskingum/event-volume-not-conserved-when-run-in-windows/"+lat, d, "Muskingum K=%g X=%g: run in windows cut after %v the outflow volume is %g, inflow+lateral volume %g", p["K"], p["X"], cuts, wout, vin)
+				return
+			}
+		}
 		if vin > 0 {
 			r.MarkNontrivial()
 		}
@@ -173,6 +204,17 @@ func muskSteady(c *gridx.Case, r *vf.Rec) {
 	}
 	if math.Abs(got-(I+L)) > 1e-9*(I+L)+1e-12 {
 		r.Failf("C11/Muskingum/steady-flow-not-passed/"+lat, map[string]interface{}{"params": p, "inflow": I, "lateral": L, "outflow_after_400_steps": got}, "Muskingum K=%g X=%g: steady inflow %g + lateral %g gives outflow %g", p["K"], p["X"], I, L, got)
+		return
+	}
+	// the same steady flow delivered in 100 calls of 4 steps with the states carried forward
+	var states []float64
+	last := 0.0
+	for w := 0; w < n/4; w++ {
+		seg := cc.RunSeg(4*w, 4*w+4, states)
+		states, last = seg.States, seg.Out[0][3]
+	}
+	if math.Abs(last-(I+L)) > 1e-9*(I+L)+1e-12 {
+		r.Failf("C11/Muskingum/steady-flow-not-passed-when-run-in-windows/"+lat, map[string]interface{}{"params": p, "inflow": I, "lateral": L, "outflow_after_100_windows_of_4": last}, "Muskingum K=%g X=%g: steady inflow %g + lateral %g in 4-step windows gives outflow %g", p["K"], p["X"], I, L, last)
 		return
 	}
 	if I+L > 0 {
@@ -282,7 +324,7 @@ func Spec() *vf.Check {
 	return &vf.Check{
 		ID: "C11", Level: "exploration", BlockSize: 512,
 		Rule: "StorageRouting: (k,m) in {(21600,1),(86400,0.8),(172800,0.6),(50000,0.9995)} x dead storage {0,5e4} x bias {0,0.2} x area {0,1e4} x every word of length T over 11 (inflow,lateral,rain,evap) letters: per-step balance, Q>=0, S>=0, S=k*Q^m+dead within the solver tolerance (bias 0). " +
-			"Muskingum: (K,X) grid in the stable region x every (inflow,lateral) word + 600-step zero tail: event volume conserved, no negative outflow; every letter as a 400-step steady flow passes unchanged. " +
+			"Muskingum: (K,X) grid in the stable region x every (inflow,lateral) word + 600-step zero tail: event volume conserved (also when the event is cut into consecutive calls in every possible way, states carried forward), no negative outflow; every letter as a 400-step steady flow passes unchanged (in one call and in 100 calls of 4 steps). " +
 			"Lag: lag {0,1,2,3,5,8} x every word of every length 1..T+2 over {0,1,7} x {zero, pre-filled} carried-over buffer: FIFO reference for outputs and final buffer. distinct_nontrivial = cases with non-zero flow.",
 		Assumptions: []string{"potential net evaporation is bounded using the loosest reading of the units (area*(evap-rain)/dt)", "StorageRouting S(Q) law is required up to the solver's two stopping tolerances: a balance residual <= massBalanceLimit or an index flow within 2*convergenceLimit of the exact root (near Q=0 with m<1 the S(Q) slope is unbounded, so the second one matters); the exact root is found by bisection in the harness", "lattice values only"},
 		Build:       func(tier string) vf.Enumeration { return gridx.NewEnum("C11", spaces(tier)) },
